@@ -290,7 +290,12 @@ pub fn run(runner: &mut Runner, data_dir: &str, behaviours: Option<&str>, seed: 
         let behs = read_ndjson(p);
         let step = if thorough { 1 } else { 7 };
         for (bi, beh) in behs.iter().enumerate() {
-            if bi % step != 0 || beh["seq"].as_array().unwrap().len() < 2 {
+            // every step-th sequence, and every sequence in which two wire banks carry the same name
+            // (duplicates in either order) whatever the stride
+            let seq = beh["seq"].as_array().unwrap();
+            let wires: Vec<u64> = seq.iter().filter(|t| t[0] == "w").map(|t| t[1].as_u64().unwrap_or(0)).collect();
+            let dup_wire = (1..wires.len()).any(|i| wires[..i].contains(&wires[i]));
+            if (bi % step != 0 && !dup_wire) || seq.len() < 2 {
                 continue;
             }
             let mut banks = evgen::concretize_seq(&mut rng, SIM, beh);
